@@ -72,6 +72,12 @@ func c04(c *Check) {
 	c.Rule("C04/failing-hook-fails-the-call", "CallEVMWithData: a post-transaction hook error (e.g. a failing SendPacket) marks the response failed and the failure test is evaluated after the hook, so a failing send fails the enclosing call (shared with C03)", 4)
 	evmHookRule(c, "C04/failing-hook-fails-the-call")
 
+	c.Rule("C04/committed-bytes-are-the-emitted-bytes", "the packet tuple and the Packet struct agree field by field in both directions, so the packet decoded from the contract's PacketSent bytes re-encodes to the same bytes and the stored commitment is the hash of the emitted packet (shared with C19)", 16)
+	abiTupleRule(c, "C04/committed-bytes-are-the-emitted-bytes", "Packet")
+
+	c.Rule("C04/counters-survive-genesis", "send sequences and commitments are exported from and re-imported into their own families under the same (src,dst[,seq]) order, so numbering continues after an export/import and the chain-side counter keeps agreeing with the contract's (shared with C13)", 4)
+	packetGenesisBinding(c, "C04/counters-survive-genesis", "SendSequences", "Commitments")
+
 	c.Rule("C04/once", "on every success path of SendPacket exactly one SetNextSequenceSend, one setSequence call and one SetPacketCommitment", 3)
 	sp := c.F(pkKeeper + "Keeper.SendPacket")
 	for _, callee := range []string{"keeper.(Keeper).SetNextSequenceSend", "keeper.(Keeper).CallPacket", "keeper.(Keeper).SetPacketCommitment"} {
@@ -174,6 +180,9 @@ func c05(c *Check) {
 			c.Req(ok, "C05/ack-write-persists", construct, cs.Ins.Pos(), "cache context flushed on every path", "acknowledgement is written on "+trunc(ctxArg)+" but a success return is reachable without write(): the ack is silently dropped while the receipt stays")
 		}
 	}
+
+	c.Rule("C05/callback-failure-yields-error-ack", "a destination callback whose post-transaction hook fails makes CallPacket fail (CallEVMWithData re-tests res.Failed() after the hook), so the error-acknowledgement branch is taken instead of the success one (shared with C03/C04)", 4)
+	evmHookRule(c, "C05/callback-failure-yields-error-ack")
 
 	c.Rule("C05/ack-processed-once", "msg server Acknowledgement: outcome recorded, fee paid and callback run once each, only after a verified acknowledgement (shared structure with C03/ack-outcome)", 20)
 	ackSpec(c, "C05/ack-processed-once")
